@@ -75,9 +75,21 @@ impl Pred {
     }
 }
 
-/// Label <-> text used in traces: the canonical printed form.  Labels are constructed
-/// directly (never through Label::from_str, which is itself under test in C17).
+/// Label <-> text used in traces: the canonical printed form where that is unambiguous, and an explicit
+/// form "~g:<char>" / "~s:<chars>" for label VALUES no text denotes (Greek('α'), a Str holding one character,
+/// a blank inside, an α prefix).  Labels are constructed directly, never through Label::from_str, which is
+/// itself under test in C17.  The mapping is injective in both directions.
 pub fn label_of(text: &str) -> Label {
+    if let Some(r) = text.strip_prefix("~g:") {
+        return Label::Greek(r.chars().next().unwrap());
+    }
+    if let Some(r) = text.strip_prefix("~s:") {
+        let mut a = [' '; 8];
+        for (i, c) in r.chars().enumerate() {
+            a[i] = c;
+        }
+        return Label::Str(a);
+    }
     let chars: Vec<char> = text.chars().collect();
     if chars[0] == 'α' && chars.len() > 1 && chars[1..].iter().all(|c| c.is_ascii_digit()) {
         let n: usize = chars[1..].iter().collect::<String>().parse().unwrap();
@@ -94,10 +106,27 @@ pub fn label_of(text: &str) -> Label {
 }
 
 pub fn label_text(l: &Label) -> String {
-    match l {
+    let plain = match l {
         Label::Greek(c) => format!("{c}"),
         Label::Alpha(i) => format!("α{i}"),
-        Label::Str(a) => a.iter().filter(|c| **c != ' ').collect(),
+        Label::Str(a) => a.iter().collect::<String>().trim_end_matches(' ').to_string(),
+    };
+    let canonical = !plain.is_empty()
+        && !plain.starts_with('~')
+        && !plain.contains(' ')
+        && match l {
+            Label::Greek(c) => *c != 'α',
+            Label::Alpha(_) => true,
+            Label::Str(_) => plain.chars().count() >= 2 && !plain.starts_with('α'),
+        };
+    if canonical {
+        plain
+    } else {
+        match l {
+            Label::Greek(c) => format!("~g:{c}"),
+            Label::Alpha(i) => format!("α{i}"),
+            Label::Str(a) => format!("~s:{}", a.iter().collect::<String>().trim_end_matches(' ')),
+        }
     }
 }
 
